@@ -37,6 +37,8 @@ type Case struct {
 	WL  *Workload `json:"wl,omitempty"`
 	Idx int       `json:"idx,omitempty"`
 	Win *Window   `json:"win,omitempty"`
+	// stress
+	Stress *Stress `json:"stress,omitempty"`
 	// event: 1 crash, 2 hang, 3 race Leaf.Update||Delete, 4 other race
 	Event int    `json:"event,omitempty"`
 	Msg   string `json:"msg,omitempty"`
@@ -146,6 +148,8 @@ func caseTerm(n *vh.Names, c Case) string {
 			oe = append(oe, fmt.Sprintf("OPR 0%%nat 0%%nat 0%%nat (AQuery []) RsHang"))
 		}
 		return fmt.Sprintf("CWin %s %s %s", leavesTerm(n, w.S0), vh.List(oe), leavesTerm(n, w.Final))
+	case "stress":
+		return fmt.Sprintf("CStress %s %s %d%%N", leavesTerm(n, c.Stress.Allowed), leavesTerm(n, c.Stress.Final), c.Stress.Bad)
 	case "event":
 		return fmt.Sprintf("CEvent %d%%N", c.Event)
 	}
@@ -413,8 +417,9 @@ var randOps = func(r *vh.Rand) SOp {
 // mode A through a child process
 
 type childOut struct {
-	WL   Workload `json:"wl"`
-	Wins []Window `json:"wins"`
+	WL     Workload `json:"wl"`
+	Wins   []Window `json:"wins"`
+	Stress *Stress  `json:"stress,omitempty"`
 }
 
 func childMain(spec, outFile string) {
@@ -429,8 +434,18 @@ func childMain(spec, outFile string) {
 	}
 	enc := json.NewEncoder(f)
 	for _, wl := range wls {
-		wins := runWorkload(wl)
-		if err := enc.Encode(childOut{WL: wl, Wins: wins}); err != nil {
+		var co childOut
+		switch wl.Kind {
+		case "hammer":
+			st := runHammer(wl)
+			co = childOut{WL: wl, Stress: &st}
+		case "api":
+			st := runAPI(wl)
+			co = childOut{WL: wl, Stress: &st}
+		default:
+			co = childOut{WL: wl, Wins: runWorkload(wl)}
+		}
+		if err := enc.Encode(co); err != nil {
 			vh.Die("child encode: %v", err)
 		}
 		f.Sync()
@@ -456,6 +471,14 @@ func (e *emitter) modeA(family string, wls []Workload, out string, tag string) {
 				break
 			}
 			done[co.WL.Seed] = true
+			if co.Stress != nil {
+				wl := co.WL
+				c := Case{Family: family, Kind: "stress", WL: &wl, Stress: co.Stress}
+				canon, _ := json.Marshal(co)
+				e.put(c, string(canon), co.Stress.Ops > 0, map[string]interface{}{"family": family, "kind": wl.Kind, "goroutines": wl.G, "ops_completed": co.Stress.Ops, "bad": co.Stress.Bad, "msg": co.Stress.Msg})
+				e.meta.Hist(fmt.Sprintf("stress:%s:bad=%d", wl.Kind, co.Stress.Bad))
+				continue
+			}
 			e.addWindows(family, co.WL, co.Wins)
 			for _, w := range co.Wins {
 				if w.Hung {
@@ -515,7 +538,7 @@ func (e *emitter) replayCases(family string, cs []Case, out string) {
 		switch c.Kind {
 		case "sched":
 			e.addSched(family, c.Prog, c.Ops)
-		case "win":
+		case "win", "stress":
 			if c.WL != nil {
 				e.modeA(family, []Workload{*c.WL}, out, fmt.Sprintf("replay%d", i))
 			}
@@ -641,6 +664,30 @@ func main() {
 		}
 		e.modeA("A:windows", wls[b*20:hi], o.Out, fmt.Sprintf("b%d", b))
 	}
+	// stress runs: readers vs writers on one leaf, and every exported method
+	nh, na, per := 40, 12, 400
+	if o.Thorough() {
+		nh, na, per = 400, 120, 1000
+	}
+	var sw []Workload
+	for i := 0; i < nh; i++ {
+		sw = append(sw, Workload{Kind: "hammer", Seed: r.U64(), G: 4, Windows: per})
+	}
+	for b := 0; b*10 < len(sw); b++ {
+		hi := (b + 1) * 10
+		if hi > len(sw) {
+			hi = len(sw)
+		}
+		e.modeA("A:hammer", sw[b*10:hi], o.Out, fmt.Sprintf("h%d", b))
+		if meta.Histogram["stress:hammer:bad=2"] >= 2 {
+			break // two deadlocks observed: enough
+		}
+	}
+	sw = nil
+	for i := 0; i < na; i++ {
+		sw = append(sw, Workload{Kind: "api", Seed: r.U64(), G: 2 + r.Intn(15), Windows: per})
+	}
+	e.modeA("A:api", sw, o.Out, "api")
 	e.flush()
 	meta.Exhaustive = false
 	if err := meta.Write(o.Out); err != nil {
